@@ -121,7 +121,7 @@ def plan(tier, seed):
                   oracles={"result", "resource"})
         n = {1: 1, 2: 8, 3: 48}[depth]
         if depth == 3:
-            kw["max_transitions"] = 400000
+            kw["max_transitions"] = 40000
         tasks += seqcheck.split(n, **kw) if n > 1 else [seqcheck.make_task(**kw)]
     return tasks
 
